@@ -459,6 +459,17 @@ def refute_papi(unit, fn, repo, seed):
                         add("sig.sign_ph %s %s %s" % (_h(sd), _h(m), _h(ctx)), _h(sgp))
                         for op, strict in (("sig.verify_ph", False), ("sig.verify_ph_strict", True)):
                             add("%s %s %s %s %s" % (op, _h(pk), _h(sgp), _h(m), _h(ctx)), "1")
+                        # prehashed variants: small-order R with S = k*a (plain accepts R = identity, strict rejects), S + l, flipped bits
+                        Sp = int.from_bytes(sgp[32:], "little")
+                        phv = [sgp[:32] + ((Sp + O.L) % 2**256).to_bytes(32, "little"), bytes([sgp[0] ^ 1]) + sgp[1:], sgp[:63] + bytes([sgp[63] ^ 0x80])]
+                        for T in tors[:3]:
+                            Rb = O.ed_encode(T)
+                            k = int.from_bytes(O.sha512(O.dom2(1, ctx), Rb, pk, O.sha512(m)), "little") % O.L
+                            phv.append(Rb + ((k * a) % O.L).to_bytes(32, "little"))
+                        for v in phv:
+                            for op, strict in (("sig.verify_ph", False), ("sig.verify_ph_strict", True)):
+                                r = O.verify(pk, v, m, strict=strict, ph_ctx=ctx)
+                                add("%s %s %s %s %s" % (op, _h(pk), _h(v), _h(m), _h(ctx)), "1" if r is True else "0")
                             add("%s %s %s %s %s" % (op, _h(pk), _h(sgp), _h(m), _h(ctx + b"x") if len(ctx) < 255 else _h(b"B" * 255)), "0")
                     else:
                         add("sig.sign_ph %s %s %s" % (_h(sd), _h(m), _h(ctx)), "ERR")
